@@ -31,6 +31,12 @@ impl Encoder for RawCodec {
     type Item = Vec<u8>;
     type Error = Status;
     fn encode(&mut self, item: Vec<u8>, dst: &mut EncodeBuf<'_>) -> Result<(), Status> {
+        // a message starting with [250, 17, k] is refused by the codec after it wrote k bytes of it
+        if item.len() >= 3 && item[0] == 250 && item[1] == 17 {
+            let k = (item[2] as usize).min(item.len() - 3);
+            dst.put_slice(&item[3..3 + k]);
+            return Err(Status::internal("codec refused the message"));
+        }
         dst.put_slice(&item);
         Ok(())
     }
